@@ -1,15 +1,24 @@
-(** C01 — model side of the output-stage correspondence: a unit-gain static sound on a bare
-    main track puts its source frames on the mixer bus unchanged (rate 1, 0 dB, centre), so the
-    device buffer must be [render n b frames]. *)
+(** C01 — model side of the correspondence.  [COut]: the device buffer for a given mixer bus must be
+    [render n b bus] (the bus is either the source frames of a unit-gain static sound on a bare main
+    track, or what a probe effect at the end of the main track recorded in a random scene).
+    [CCb]: the step list of a callback: no heap traffic, one on_start_processing, chunk lengths. *)
 From Coq Require Import ZArith List Bool.
 From KV Require Import Base.IEEE Base.Corr C01.Model.
 Import ListNotations.
 Local Open Scope Z_scope.
 
-Inductive case := COut (channels b : Z) (frames : list (Z * Z)).
+Inductive case :=
+| COut (channels b : Z) (frames : list (Z * Z))
+  (** one callback of [frames] frames with internal buffer [b]: heap allocations, frees, calls of
+      on_start_processing, then the chunk lengths the mixer was asked for *)
+| CCb (b frames : Z).
 
 Definition run (c : case) : list Z :=
   match c with
   | COut n b frames =>
       map bits_of_f32 (render (Z.to_nat n) (Z.to_nat b) (map (fun '(l, r) => (f32_of_bits l, f32_of_bits r)) frames))
+  | CCb b frames =>
+      let steps := callback_steps (Z.to_nat b) (Z.to_nat frames) in
+      Z.of_nat (heap_allocs steps) :: Z.of_nat (heap_frees steps) :: Z.of_nat (starts_of steps)
+      :: map Z.of_nat (mixer_lengths steps)
   end.
